@@ -168,3 +168,7 @@ package ipns
 //@   site[compared_with_the_name_asked_for] call:Name.Equal : arg0 == name && arg1 == res("call:NameFromPeer#0", 0)
 //@   site[key_inlined_in_the_name_asked_for] call:ID.ExtractPublicKey : arg0 == res("call:Name.Peer#0", 0)
 //@   site[peer_of_the_name_asked_for] call:Name.Peer : arg0 == name
+// (ValidateWithName = ExtractPublicKey + Validate, both under contract above; callers in other packages
+// see it as a check without side effects)
+//@ func ValidateWithName
+//@   assumed
